@@ -119,6 +119,59 @@ def gen_key(rng: random.Random, depth: int, n_msgs: int):
     return ('all',)
 
 
+def twin(rng: random.Random, tree):
+    """A key that differs from *tree* in one respect only (the other
+    addressing mode, the other field, the other direction): a server that
+    identifies keys too coarsely merges or drops one of the pair."""
+    k = tree[0]
+    if k == 'seq':
+        return ('uid', tree[1])
+    if k == 'uid':
+        return ('seq', tree[1])
+    if k == 'not':
+        return rng.choice([tree[1], ('not', twin(rng, tree[1]))])
+    if k == 'flag':
+        name = tree[1]
+        other = name[2:] if name.startswith('UN') else 'UN' + name
+        if name in ('RECENT', 'OLD', 'NEW'):
+            other = rng.choice([x for x in ('RECENT', 'OLD', 'NEW')
+                                if x != name])
+        return ('flag', other)
+    if k == 'keyword':
+        return rng.choice([
+            ('keyword', 'UNKEYWORD' if tree[1] == 'KEYWORD' else 'KEYWORD',
+             tree[2]),
+            ('keyword', tree[1], rng.choice(KEYWORDS + ['nokw']))])
+    if k == 'str':
+        return rng.choice([
+            ('str', rng.choice(['FROM', 'TO', 'CC', 'BCC', 'SUBJECT', 'BODY',
+                                'TEXT']), tree[2]),
+            ('str', tree[1], rng.choice(NEEDLES)),
+            ('header', tree[1] if tree[1] not in ('BODY', 'TEXT')
+             else 'Subject', tree[2])])
+    if k == 'date':
+        name = tree[1]
+        other = name[4:] if name.startswith('SENT') else 'SENT' + name
+        return rng.choice([
+            ('date', other, tree[2]),
+            ('date', rng.choice(['BEFORE', 'ON', 'SINCE']), tree[2]),
+            ('date', name, '%d-Jan-2024' % rng.choice([13, 15, 17]))])
+    if k == 'size':
+        return rng.choice([
+            ('size', 'SMALLER' if tree[1] == 'LARGER' else 'LARGER', tree[2]),
+            ('size', tree[1], rng.choice([0, 250, 400, 100000]))])
+    if k == 'header':
+        return rng.choice([
+            ('header', tree[1], rng.choice(NEEDLES + [''])),
+            ('header', rng.choice(['Subject', 'FROM', 'Cc', 'Date']),
+             tree[2])])
+    if k == 'or':
+        return ('or', tree[2], twin(rng, tree[1]))
+    if k == 'and':
+        return ('and', [twin(rng, t) for t in tree[1]])
+    return ('not', ('all',))
+
+
 def _set(rng, hi, lo=0) -> str:
     def num():
         if rng.random() < 0.2:
@@ -289,8 +342,16 @@ def gen_search_case(rng: random.Random, tier: str, backends=('dict',)) -> dict:
     queries = []
     for _ in range(rng.randint(5, 20)):
         tree = gen_key(rng, rng.choice([0, 1, 2, 3, 4]), n)
-        if rng.random() < 0.3:
+        r = rng.random()
+        if r < 0.3:
             tree = ('and', [tree, gen_key(rng, 1, n)])
+        elif r < 0.5:
+            # the key and its near-twin side by side, either order, as a
+            # conjunction or a disjunction
+            pair = [tree, twin(rng, tree)]
+            rng.shuffle(pair)
+            tree = ('and', pair) if rng.random() < 0.7 else \
+                ('or', pair[0], pair[1])
         q = {'tree': tree, 'uid': rng.random() < 0.4}
         if rng.random() < 0.4:
             q['equiv'] = rewrite(tree, rng)
@@ -484,7 +545,9 @@ class C13(Profile):
             'SINCE/SENT*, LARGER/SMALLER, sequence and UID sets with *, '
             'NOT/OR/parenthesised lists), as SEARCH or UID SEARCH; 40% with a '
             'logically equivalent rewrite (double negation, De Morgan, '
-            'commutation, reordering); in 25% of cases a second session '
+            'commutation, reordering); 20% put a key next to its near-twin '
+            '(same set as sequence and as UID set, other field, other '
+            'direction, other value); in 25% of cases a second session '
             'expunges 1-2 messages first (either inclusion accepted for '
             'those). Non-trivial = >= 3 queries on a non-empty mailbox.')
     assumptions = C01.assumptions + [
